@@ -96,6 +96,14 @@ def field_source(t, xparam):
                 return ("chunks", ("comp", "ListComp", a[0], (("i", ("call", "range", a[0][2][1], ())),)))
         if inner[0] == "call" and inner[1].endswith("::split_bytes_given_slice_len") and inner[2] and inner[2][0] == xb:
             return ("pieces", inner[2][1])
+        ch = inner
+        if ch[0] == "call" and ch[1] in ("list", "tuple") and len(ch[2]) == 1:
+            ch = ch[2][0]
+        if ch[0] == "call" and isinstance(ch[1], str) and ch[1].endswith("list_utils.py::chunks") and len(ch[2]) == 2 and ch[2][0] == xb and not ch[3]:
+            # list_utils.chunks(x, k) yields x[i : i + k] for i in range(0, len(x), k)   (R17.4 establishes that)
+            rv = ("rangevar", (("const", 0), ("call", "len", (xb,), ()), ch[2][1]))
+            return ("chunks", ("comp", "ListComp", ("slice", xb, rv, ("binop", "Add", rv, ch[2][1])),
+                               (("i", ("call", "range", (("const", 0), ("call", "len", (xb,), ()), ch[2][1]), ())),)))
     if t == ("param", "config"):
         return ("config",)
     # pickle.loads(...) possibly projected (tuple unpacking) or indexed with a constant
